@@ -1,10 +1,10 @@
-\* object-graph (quick + thorough): 2 commits x 16 root-tree assignments over 4 pool trees x <= 1 tag x include-tag x thin-pack; negotiation collapsed, fixed pop order
+\* thorough: like obj2 with all 5 pool trees (nested subtree)
 \* (harness/props/c05.py writes the same configuration at run time; TransferCases uses the same constants
 \*  plus SampleMod / SampleSeed)
 SPECIFICATION Spec
 CONSTANTS
   NC = 2
-  NTP = 4
+  NTP = 5
   NT = 1
   MaxHeads = 2
   MaxWants = 2
